@@ -281,6 +281,8 @@ def parse_lines(lines):
                 r["desc"] = l.split("desc=", 1)[1]
             res.append(r)
             pending = None
+        elif l.startswith("O ") and res and "other=CHANGED" in l:
+            res[-1]["other"] = "CHANGED"
     return res, pending
 
 
@@ -451,6 +453,36 @@ def run(ck):
                     ro_mode_rejected[nm] = (r.get("st") not in (None, "0") and r.get("msg") == "mode")
     ck.cov["traces_validated_against_impl"] += dyn["ro_calls"]
 
+    # (a2) the same with a second file open in MODIFY mode that was the last file the library touched: the mode a call
+    # consults must be the mode of the file it acts on (its handle, or the file of the current position), never the
+    # "current file" left behind by the previous call
+    dyn["ro2_calls"] = 0
+    for b in BACKENDS:
+        for s in (STATES if big else ["rich"]):
+            wk = os.path.join(work, "ro2_%s_%s.cgns" % (b, s))
+            out, crashes = run_pass(exe, "ro2", [tm[(b, s)], wk], n, work, per=idx)
+            for nm, v, oc in crashes:
+                dyn["crashes"].append({"pass": "ro2", "backend": b, "state": s, "entry": nm, "outcome": oc})
+                note("ungated:" + nm.split("@")[0], {"level": "ro2", "backend": b, "state": s, "entry": nm, "outcome": oc,
+                                                     "oracle": "no sanitizer report / signal on a READ-mode handle while another file is open in MODIFY mode"})
+            for r in out:
+                if r.get("openfail"):
+                    continue
+                dyn["ro2_calls"] += 1
+                nm = r["name"]; bn = nm.split("@")[0]
+                is_mut = docs.get(bn) == "Write" or (bn in mutators and docs.get(bn) != "Read")
+                ck.case(("ro2", nm, b, s) if is_mut else None, sample=None)
+                wit = {"level": "ro2", "backend": b, "state": s, "entry": nm, "observed": r,
+                       "oracle": "a READ-mode file A and a MODIFY-mode file B are open; B is read (cg_nbases) right before the call, which is "
+                                 "made on A's handle / on a position inside A: A's bytes, A's session view and B's tree must not change, and "
+                                 "a mutator must fail",
+                       "replay_hint": ".build/h/c07_drv ro2 <template> <work> %d %d" % (idx[nm], idx[nm] + 1)}
+                if r.get("file") == "CHANGED" or r.get("view") == "CHANGED" or r.get("other") == "CHANGED":
+                    note("ungated:" + bn, wit)
+                elif is_mut and r.get("st") == "0":
+                    note("ungated:" + bn, dict(wit, what="a mutator returned success on a READ-mode handle / position"))
+    ck.cov["traces_validated_against_impl"] += dyn["ro2_calls"]
+
     # (b) every entry point in MODIFY mode on a fresh copy: readers must leave the tree alone; writers tell whether the arguments were valid
     for b in BACKENDS:
         for s in (STATES if big else ["rich", "bare"]):
@@ -485,6 +517,8 @@ def run(ck):
     readers = [i for i, e in enumerate(entries) if e["doc"] == "Read" and e["fn"] not in excluded and not (e["flags"] & 1)
                and not re.search(r"^cg_(free|save_as)$", e["name"])]
     nseq = 6 if big else 2
+    if not readers:          # every documented read is already implicated by the passes above: nothing left to sequence
+        nseq = 0
     for b in BACKENDS:
         for s in STATES:
             for mode in (0, 2):
@@ -584,13 +618,14 @@ def replay(ck, path):
     exe, entries, static_only = build_driver(d)
     idx = {e["name"]: i for i, e in enumerate(entries)}
     tm = make_templates(exe, ck.work)
-    if r.get("level") in ("ro", "md", "modify-reader") and r.get("entry") in idx:
-        op = "ro" if r["level"] == "ro" else "md"
+    if r.get("level") in ("ro", "ro2", "md", "modify-reader") and r.get("entry") in idx:
+        op = r["level"] if r["level"] in ("ro", "ro2") else "md"
         i = idx[r["entry"]]
         lines, outcome = vlib.run_impl(exe, "", args=[op, tm[(r["backend"], r["state"])], os.path.join(ck.work, "replay.cgns"), str(i), str(i + 1)], cwd=ck.work)
         rr, _ = parse_lines(lines)
-        fails = outcome != "ok" or any(x.get("file") == "CHANGED" or x.get("view") == "CHANGED" or (op == "md" and x.get("tree") == "CHANGED") or
-                                       (op == "ro" and "what" in r and x.get("st") == "0") for x in rr)
+        fails = outcome != "ok" or any(x.get("file") == "CHANGED" or x.get("view") == "CHANGED" or x.get("other") == "CHANGED" or
+                                       (op == "md" and x.get("tree") == "CHANGED") or
+                                       (op in ("ro", "ro2") and "what" in r and x.get("st") == "0") for x in rr)
         det = {"outcome": outcome, "results": rr}
     elif r.get("level") == "sequence":
         seq = [idx[nm] for nm in r["sequence"] if nm in idx]
